@@ -350,7 +350,8 @@ fn bin_session(rep: &mut Report, rng: &mut Rng, srv: &mut Server, logs: &[Log], 
             // a query ends on the first idle poll of the server (documented design): only ask once everything arrived
             wait_parsed(&mut cl, &mut parsed);
         }
-        let (w0, w1) = match rng.below(5) {
+        // on the large log queries often ask for (nearly) everything: tens of thousands of results pending at once
+        let (w0, w1) = match if is_query && n > 10_000 && rng.chance(1, 2) { 2 } else { rng.below(5) } {
             0 => (0, 0),
             1 => (stream_pos.len() + 5, stream_pos.len() + 20),
             2 => (0, stream_pos.len() + 10),
